@@ -97,11 +97,21 @@ Proof. exact (conj c26_ex_hypotheses c26_nonvacuous_proof). Qed.
     only (the model applies the resolved-target check to downloads only), it
     looks at the final component only (Lstat says "not a link" -> accepted),
     the four browse actions go through requirePath, and validatePath makes
-    its checks in the modelled order. *)
+    its checks in the modelled order; the allow-list decision is made on
+    exactly the path the operations use, and every pattern branch compares
+    whole path components. *)
 Theorem C26_source_facts :
   gen_symlink_target_callers = ["ValidateDownloadMetadata"] /\
   gen_validate_path_callers = ["requirePath"; "validateCommon"; "validateSymlinkTarget"] /\
   gen_require_path_callers = ["browseChmod"; "browseDelete"; "browseList"; "browseStat"] /\
-  gen_validate_path_check_order = true /\ gen_symlink_check_only_final_component = true.
+  gen_validate_path_check_order = true /\ gen_symlink_check_only_final_component = true /\
+  (* the decision is made on the path that is used: normalizePath is NFC then Clean and nothing else
+     ([normalize_for_check]), the operations use filepath.Clean of the request ([used_path]) *)
+  gen_normalize_calls = ["norm.NFC.String"; "filepath.Clean"] /\
+  gen_used_path_require = "filepath.Clean(path)" /\ gen_used_path_upload = "filepath.Clean(path)" /\
+  gen_used_path_download = "filepath.Clean(path)" /\
+  (* matching respects component boundaries in every pattern branch ([under_prefix] = component prefix) *)
+  gen_allowed_under_prefix_calls = 2%N /\ gen_allowed_raw_prefix_calls = 0%N /\ gen_allowed_match_calls = 2%N /\
+  gen_recursive_glob_uses_under_prefix = true /\ gen_under_prefix_appends_separator = true.
 Proof. repeat split; reflexivity. Qed.
 Print Assumptions C26_source_facts.
